@@ -329,7 +329,7 @@ int main(int argc, char** argv)
             ex::start(op);
             {
                 std::unique_lock<std::mutex> l(o->m);
-                hang = !o->cv.wait_for(l, std::chrono::seconds(8), [&] { return o->nsig > 0; });
+                hang = !o->cv.wait_for(l, std::chrono::seconds(12), [&] { return o->nsig > 0; });
             }
             if (hang)
             {
